@@ -1571,7 +1571,11 @@ pub fn handle_trailer(
     kawa.push_block(Block::Flags(Flags {
         end_body: false,
         end_chunk: false,
-        end_header: true,
+        // the empty line that closes a trailer section only exists after a
+        // chunked body: a Content-Length framed message ends with its last
+        // body byte (its trailers were dropped above), and a stray CRLF would
+        // be read by the HTTP/1.1 peer as the start of the next message.
+        end_header: !length_framed,
         end_stream: true,
     }));
     kawa.parsing_phase = ParsingPhase::Terminated;
